@@ -77,9 +77,9 @@ theorem nodup_dedup {α : Type} [DecidableEq α] (l : List α) : (dedup l).Nodup
     · rename_i h
       rw [List.nodup_cons]; exact ⟨by rw [mem_dedup]; exact h, ih⟩
 
-theorem sortKeys_perm (l : List Key) : (sortKeys l).Perm l := List.mergeSort_perm _ _
+theorem sortKeys_perm (l : List Key) : (sortKeys l).Perm l := isort_perm _ _
 theorem sortEntries_perm {α : Type} (l : List (Key × α)) : (sortEntries l).Perm l :=
-  List.mergeSort_perm _ _
+  isort_perm _ _
 
 section
 variable {R : Type} [Field R] (ρ : Env R)
